@@ -838,6 +838,10 @@ class BosonicBackend(BaseBosonic):
         if modes is None:
             modes = self.get_modes()
 
+        # deleted modes stay in the arrays of the circuit (as vacuum): do not hand them out
+        if any(i not in self.get_modes() for i in modes):
+            raise ValueError("The specified modes are not valid.")
+
         # the data below are arranged in ascending mode order, and so must be the labels
         mode_names = ["q[{}]".format(i) for i in sorted(modes)]
 
